@@ -12,7 +12,7 @@ import os
 import subprocess
 import sys
 
-from .. import common, prog, progrun
+from .. import common, prog, progrun, clicorr
 from ..progrun import Scenario, Name
 from . import c12
 
@@ -259,7 +259,7 @@ def strict_caller(ctx, tmp):
 
 
 def run(ctx):
-    ctx.check_proofs(["MPilot.Props.C13"])
+    ctx.check_proofs(["MPilot.Props.C13", "MPilot.Props.C13Cli"])
     model = common.Model()
     rng = ctx.rng
     tmp = common.tmpdir("mpv_c13_")
@@ -326,6 +326,7 @@ def run(ctx):
     csv_faults(ctx, tmp)
     strict_caller(ctx, tmp)
     cli(ctx, tmp, 12 if ctx.thorough else 9)
+    clicorr.formatting(ctx, model, ctx.budget(60, 3000))         # the tool's reporting against Model/Cli (Props/C13Cli.lean)
     return ctx.finish(
         rule="(a) every command x parameter x raw kinds (numbers, booleans, strings incl. non-ASCII/backslash/quote, names of results of every kind, "
              "unknown names, lists, nested lists, dicts) and failing bodies, through from_source()/run()/result; (b) single-token corruptions of those "
